@@ -20,6 +20,12 @@ const (
 	tFun
 )
 
+// a function of k integers returning an integer is the type tFun+k
+func funT(k int) typ      { return tFun + typ(k) }
+func isFun(t typ) bool    { return t >= tFun }
+func arityOf(t typ) int   { return int(t - tFun) }
+func nilableT(t typ) bool { return t == tList || t == tAny }
+
 type node struct{ L, G string }
 
 type vinfo struct {
@@ -31,9 +37,25 @@ type vinfo struct {
 }
 
 type finfo struct {
-	name  string
-	arity int
-	rec   bool // first argument is a small recursion counter
+	name   string
+	arity  int
+	rec    bool  // first argument is a small recursion counter
+	ptypes []typ // parameter types (tInt or a function type); nil = all integers
+}
+
+func (f finfo) hasFunParam() bool {
+	for _, t := range f.ptypes {
+		if isFun(t) {
+			return true
+		}
+	}
+	return false
+}
+func (f finfo) ptype(i int) typ {
+	if i < len(f.ptypes) {
+		return f.ptypes[i]
+	}
+	return tInt
 }
 
 type gen struct {
@@ -120,6 +142,14 @@ func (g *gen) vars(t typ, arity int, writable bool) []vinfo {
 		out = append(out, v)
 	}
 	return out
+}
+
+// visible variables of an encoded type
+func (g *gen) varsT(t typ, writable bool) []vinfo {
+	if isFun(t) {
+		return g.vars(tFun, arityOf(t), writable)
+	}
+	return g.vars(t, 0, writable)
 }
 
 // every visible variable (innermost binding of each name), whatever its type
@@ -282,16 +312,22 @@ func (g *gen) quoteDatum() node {
 func (g *gen) expr(t typ, d int) node {
 	g.budget--
 	if d <= 0 || g.budget <= 0 {
+		if isFun(t) {
+			return g.funBase(arityOf(t), 0)
+		}
 		return g.leaf(t)
 	}
 	x := g.r.Intn(100)
 	switch {
 	case x < 12:
 		return g.tr(g.expr(t, d-1))
-	case x < 62:
+	case x < 62 && !isFun(t), x < 45:
 		if n, ok := g.control(t, d); ok {
 			return n
 		}
+	}
+	if isFun(t) {
+		return g.funBase(arityOf(t), d)
 	}
 	return g.typed(t, d)
 }
@@ -347,7 +383,7 @@ func (g *gen) body(t typ, d int, maxStmts int) []node {
 }
 
 func (g *gen) setq(t typ, d int) (node, bool) {
-	vs := g.vars(t, 0, true)
+	vs := g.varsT(t, true)
 	if len(vs) == 0 {
 		return node{}, false
 	}
@@ -435,8 +471,8 @@ func bindsG(vs []vinfo, inits []node) string {
 
 // control forms whose value is the value of an inner expression of type t
 func (g *gen) control(t typ, d int) (node, bool) {
-	nilable := t != tInt
-	switch g.r.Intn(26) {
+	nilable := nilableT(t)
+	switch g.r.Intn(27) {
 	case 0:
 		g.h("progn")
 		b := g.body(t, d, 2)
@@ -558,12 +594,12 @@ func (g *gen) control(t typ, d int) (node, bool) {
 				es = append(es, g.test(d))
 			}
 			es = append(es, g.expr(t, d-1))
-			if g.r.Chance(4) {
+			if g.r.Chance(10) {
 				return node{"(and)", "(EAnd [])"}, true
 			}
 			return node{lisp("and", joinL(es)), "(EAnd " + listG(es) + ")"}, true
 		}
-		if nilable && g.r.Chance(4) {
+		if nilable && g.r.Chance(10) {
 			return node{"(or)", "(EOr [])"}, true
 		}
 		var es []node
@@ -585,6 +621,17 @@ func (g *gen) control(t typ, d int) (node, bool) {
 		g.h(nm)
 		vs, inits, mark := g.bindings(d, seq)
 		b := g.body(t, d, 2)
+		for i := len(vs) - 1; i >= 0; i-- {
+			if (inits[i].L == "" || inits[i].L == "()") && g.r.Chance(70) {
+				shadowed := false
+				for j := i + 1; j < len(vs); j++ {
+					shadowed = shadowed || vs[j].name == vs[i].name
+				}
+				if !shadowed {
+					b = append([]node{g.observeNil(vs[i].name)}, b...)
+				}
+			}
+		}
 		g.pop(mark)
 		return node{lisp(nm, bindsL(vs, inits), joinL(b)), fmt.Sprintf("(%s %s %s)", cn, bindsG(vs, inits), listG(b))}, true
 	case 12:
@@ -627,6 +674,8 @@ func (g *gen) control(t typ, d int) (node, bool) {
 		return g.doLoop(t, d)
 	case 24:
 		return g.doWhile(t, d)
+	case 25, 26:
+		return g.loopCapture(t, d)
 	case 21, 22:
 		return g.shadowCall(t, d)
 	case 23:
@@ -634,9 +683,9 @@ func (g *gen) control(t typ, d int) (node, bool) {
 	case 19, 20:
 		// ((lambda ...)) through funcall: the body's value
 		g.h("funcall-lambda")
-		k := g.arity()
-		f := g.lambda(k, t, d-1)
-		args := g.args(k, d)
+		ts := g.paramTypes(g.arity(), 0)
+		args := g.argsT(ts, d)
+		f := g.lambdaT(ts, t, d-1)
 		return node{strings.TrimSpace(lisp("funcall", f.L, joinL(args))), fmt.Sprintf("(EFuncall %s %s)", f.G, listG(args))}, true
 	}
 	return node{}, false
@@ -645,7 +694,7 @@ func (g *gen) control(t typ, d int) (node, bool) {
 // (values e junk...) whose primary value has type t
 func (g *gen) values(t typ, d int, forced bool) node {
 	g.h("values")
-	if t != tInt && !forced && g.r.Chance(12) {
+	if nilableT(t) && !forced && g.r.Chance(12) {
 		return node{"(values)", "(EValues [])"}
 	}
 	e := g.expr(t, d-1)
@@ -662,6 +711,49 @@ func (g *gen) args(k int, d int) []node {
 		out = append(out, g.expr(tInt, d-1))
 	}
 	return out
+}
+
+// parameter types of a function that is applied where it is written or called by name: integers, and now
+// and then a function of 0..2 integers (a closure passed down and called under the callee's bindings)
+func (g *gen) paramTypes(k int, first int) []typ {
+	ts := make([]typ, k)
+	for i := range ts {
+		ts[i] = tInt
+		if i >= first && g.r.Chance(22) {
+			ts[i] = funT(g.r.Intn(3))
+		}
+	}
+	return ts
+}
+func (g *gen) pushParam(name string, t typ, ro, ctr bool) {
+	if isFun(t) {
+		g.push(vinfo{name: name, t: tFun, arity: arityOf(t)})
+	} else {
+		g.push(vinfo{name: name, t: t, ro: ro, ctr: ctr})
+	}
+}
+func (g *gen) argsT(ts []typ, d int) []node {
+	var out []node
+	for _, t := range ts {
+		out = append(out, g.expr(t, d-1))
+	}
+	return out
+}
+
+// (lambda (p1..pk) stmts.. e:t) with parameters of the given types
+func (g *gen) lambdaT(ts []typ, t typ, d int) node {
+	g.h("lambda")
+	ps := g.freshNames(len(ts))
+	mark := len(g.env)
+	for i, p := range ps {
+		g.pushParam(p, ts[i], false, false)
+	}
+	saveSelf := g.self
+	g.self = nil
+	b := g.body(t, d, 2)
+	g.self = saveSelf
+	g.pop(mark)
+	return node{lisp("lambda", "("+strings.Join(ps, " ")+")", joinL(b)), fmt.Sprintf("(ELambda %s %s)", strsG(ps), listG(b))}
 }
 
 // (lambda (p1..pk) stmts.. e:t)
@@ -685,21 +777,11 @@ func (g *gen) lambda(k int, t typ, d int) node {
 }
 
 // an expression whose value is a function of k integers returning an integer
-func (g *gen) fun(k int, d int) node {
-	g.budget--
+func (g *gen) fun(k int, d int) node { return g.expr(funT(k), d) }
+
+// a variable holding a function, a function designator or a lambda expression
+func (g *gen) funBase(k int, d int) node {
 	x := g.r.Intn(100)
-	if d > 0 && g.budget > 0 {
-		switch {
-		case x < 8:
-			return g.tr(g.fun(k, d-1))
-		case x < 14:
-			g.h("if")
-			c := g.test(d)
-			f1 := g.fun(k, d-1)
-			f2 := g.fun(k, d-1)
-			return node{lisp("if", c.L, f1.L, f2.L), fmt.Sprintf("(EIf %s %s (Some %s))", c.G, f1.G, f2.G)}
-		}
-	}
 	if vs := g.vars(tFun, k, false); len(vs) > 0 && x < 45 {
 		v := common.Pick(g.r, vs)
 		return node{v.name, "(EVar " + q(v.name) + ")"}
@@ -707,7 +789,7 @@ func (g *gen) fun(k int, d int) node {
 	if x < 65 {
 		var cands []finfo
 		for _, f := range g.funs {
-			if f.arity == k && !f.rec {
+			if f.arity == k && !f.rec && !f.hasFunParam() {
 				cands = append(cands, f)
 			}
 		}
@@ -740,7 +822,7 @@ func (g *gen) fun(k int, d int) node {
 			return node{"#'" + nm, "(EFun " + q(nm) + ")"}
 		}
 	}
-	return g.lambda(k, tInt, d)
+	return g.emptyScopes(g.lambda(k, tInt, d))
 }
 
 func optG(n *node) string {
@@ -748,6 +830,19 @@ func optG(n *node) string {
 		return "None"
 	}
 	return "(Some " + n.G + ")"
+}
+
+// statements whose trace shows the value of a variable
+func (g *gen) observeInt(name string) node {
+	z := int64(g.r.Intn(12))
+	g.k += 2
+	return node{fmt.Sprintf("(if (< %s %d) (tr %d 0) (tr %d 1))", name, z, g.k-1, g.k),
+		fmt.Sprintf("(EIf (EPrim PLt [EVar %s; %s]) (ETr %d %s) (Some (ETr %d %s)))", q(name), gInt(z), g.k-1, gInt(0), g.k, gInt(1))}
+}
+func (g *gen) observeNil(name string) node {
+	g.k += 2
+	return node{fmt.Sprintf("(if %s (tr %d 0) (tr %d 1))", name, g.k-1, g.k),
+		fmt.Sprintf("(EIf (EVar %s) (ETr %d %s) (Some (ETr %d %s)))", q(name), g.k-1, gInt(0), g.k, gInt(1))}
 }
 
 // (dolist (x list [result]) body...) : the value is the result form's
@@ -767,7 +862,7 @@ func (g *gen) dolist(t typ, d int) (node, bool) {
 	g.pop(mark)
 	g.loops--
 	var r *node
-	if t == tInt || g.r.Chance(75) {
+	if !nilableT(t) || g.r.Chance(75) {
 		mark = g.push(vinfo{name: x, t: tAny, ro: true}) // nil when the result form runs
 		e := g.expr(t, d-1)
 		g.pop(mark)
@@ -810,7 +905,7 @@ func (g *gen) dotimes(t typ, d int) (node, bool) {
 	}
 	g.loops--
 	var r *node
-	if t == tInt || g.r.Chance(75) {
+	if !nilableT(t) || g.r.Chance(75) {
 		e := g.expr(t, d-1)
 		r = &e
 	}
@@ -836,6 +931,9 @@ func (g *gen) doLoop(t typ, d int) (node, bool) {
 	nv := 1 + g.r.Intn(3)
 	names := g.freshNames(nv)
 	ci := g.r.Intn(nv) // which variable is the counter
+	if g.r.Chance(60) {
+		ci = 0 // the others are stepped after it
+	}
 	limit := int64(g.r.Intn(4))
 	type bnd struct {
 		v    vinfo
@@ -916,12 +1014,31 @@ func (g *gen) doLoop(t typ, d int) (node, bool) {
 	if g.r.Chance(25) {
 		test = g.tr(test)
 	}
+	// a variable stepped after the counter reads the counter: do and do* differ; its value is made visible
+	var dep *vinfo
+	if g.r.Chance(60) {
+		for i := ci + 1; i < len(bs); i++ {
+			if bs[i].v.t == tInt && bs[i].init.L != "" {
+				nm := bs[i].v.name
+				st := node{lisp("+", cn, nm), fmt.Sprintf("(EPrim PAdd [EVar %s; EVar %s])", q(cn), q(nm))}
+				bs[i].step = &st
+				dep = &bs[i].v
+				break
+			}
+		}
+	}
 	var rs []node
-	if t == tInt || g.r.Chance(80) {
+	if !nilableT(t) || g.r.Chance(80) {
 		rs = g.body(t, d, 1)
+	}
+	if dep != nil && len(rs) > 0 {
+		rs = append([]node{g.observeInt(dep.name)}, rs...)
 	}
 	g.loops++
 	body := g.stmts(2, d)
+	if dep != nil && (len(rs) == 0 || g.r.Bool()) {
+		body = append(body, g.observeInt(dep.name))
+	}
 	g.loops--
 	g.pop(mark)
 	var ls, gs []string
@@ -1095,7 +1212,7 @@ func (g *gen) call(d int) (node, bool) {
 			}
 			continue
 		}
-		as = append(as, g.expr(tInt, d-1))
+		as = append(as, g.expr(f.ptype(i), d-1))
 	}
 	return node{strings.TrimSpace(lisp(f.name, joinL(as))), fmt.Sprintf("(ECall %s %s)", q(f.name), listG(as))}, true
 }
@@ -1119,10 +1236,15 @@ func (g *gen) defun(d int) node {
 		wrapVs, wrapIn, wrapMark = g.bindings(d, false)
 	}
 	mark := len(g.env)
-	for i, p := range ps {
-		g.push(vinfo{name: p, t: tInt, ro: rec && i == 0, ctr: rec && i == 0})
+	first := 0
+	if rec {
+		first = 1
 	}
-	fi := finfo{name: name, arity: k, rec: rec}
+	pts := g.paramTypes(k, first)
+	for i, p := range ps {
+		g.pushParam(p, pts[i], rec && i == 0, rec && i == 0)
+	}
+	fi := finfo{name: name, arity: k, rec: rec, ptypes: pts}
 	var b []node
 	if rec {
 		// (if (< n 1) base step) : the recursive call sits under the conditional
@@ -1157,9 +1279,31 @@ func (g *gen) defun(d int) node {
 	}
 	n := node{lisp("defun", name, "("+strings.Join(ps, " ")+")"+doc, joinL(b)),
 		fmt.Sprintf("(EDefun %s %s %s)", q(name), strsG(ps), listG(b))}
+	// the definition may sit in scopes that bind nothing themselves, inside or outside the let it closes over
+	n = g.emptyScopes(n)
 	if wrapMark >= 0 {
 		g.pop(wrapMark)
 		n = node{lisp("let", bindsL(wrapVs, wrapIn), n.L), fmt.Sprintf("(ELet %s [%s])", bindsG(wrapVs, wrapIn), n.G)}
+		n = g.emptyScopes(n)
+	}
+	return n
+}
+
+// wraps a form in 0..2 scopes that hold no binding of their own: (let () e), (let* () e), (progn e),
+// (funcall (lambda () e)); value, effects and every variable reference of e are unchanged
+func (g *gen) emptyScopes(n node) node {
+	for i := 0; i < 2 && g.r.Chance(30); i++ {
+		g.h("empty-scope")
+		switch g.r.Intn(4) {
+		case 0:
+			n = node{lisp("let", "()", n.L), "(ELet [] [" + n.G + "])"}
+		case 1:
+			n = node{lisp("let*", "()", n.L), "(ELetStar [] [" + n.G + "])"}
+		case 2:
+			n = node{lisp("progn", n.L), "(EProgn [" + n.G + "])"}
+		default:
+			n = node{lisp("funcall", lisp("lambda", "()", n.L)), "(EFuncall (ELambda [] [" + n.G + "]) [])"}
+		}
 	}
 	return n
 }
@@ -1212,6 +1356,7 @@ func (g *gen) shadowCall(t typ, d int) (node, bool) {
 	}
 	g.pop(m2)
 	lam := node{lisp("lambda", "("+strings.Join(ps, " ")+")", joinL(fb)), fmt.Sprintf("(ELambda %s %s)", strsG(ps), listG(fb))}
+	lam = g.creationContext(lam, v+"q")
 	g.push(vinfo{name: f, t: tFun, arity: k})
 	// inner scope: V bound again (let, let*, a lambda parameter, a do variable or a dolist variable)
 	e2 := g.expr(tInt, d-2)
@@ -1241,9 +1386,10 @@ func (g *gen) shadowCall(t typ, d int) (node, bool) {
 			fmt.Sprintf("(EDolist %s (EPrim PList [%s]) None %s)", q(v), e2.G, listG(inner))}
 	}
 	// after the inner scope: the outer V as the closure left it
+	afterCall := g.tr(call())
 	rest := g.body(t, d-1, 1)
 	g.pop(mark)
-	all := append([]node{shadow, g.tr(call()), g.tr(ref)}, rest...)
+	all := append([]node{shadow, afterCall, g.tr(ref)}, rest...)
 	l2 := node{lisp("let", "("+lisp(f, lam.L)+")", joinL(all)), fmt.Sprintf("(ELet [(%s, %s)] %s)", q(f), lam.G, listG(all))}
 	return node{lisp("let", "("+lisp(v, e1.L)+")", l2.L), fmt.Sprintf("(ELet [(%s, %s)] [%s])", q(v), e1.G, l2.G)}, true
 }
@@ -1307,4 +1453,108 @@ func (g *gen) doWhile(t typ, d int) (node, bool) {
 	loop := node{lisp(star, "()", lisp(test.L, joinL(rs)), joinL(body)),
 		fmt.Sprintf("(EDo %s [] %s %s %s)", sg, test.G, listG(rs), listG(body))}
 	return node{lisp("let", "("+lisp(nm, "0")+")", loop.L), fmt.Sprintf("(ELet [(%s, %s)] [%s])", q(nm), gInt(0), loop.G)}, true
+}
+
+// the place where a closure is made: directly, or returned out of scopes with zero, one or several bindings of
+// their own (empty let / let* / progn / zero-parameter lambda, a let, a lambda with parameters, two levels of
+// lambda, the result form of a loop). p is a name that occurs nowhere else.
+func (g *gen) creationContext(lam node, p string) node {
+	g.h("idiom:closure-creation-context")
+	one := func(n node) node {
+		switch g.r.Intn(9) {
+		case 0:
+			return node{lisp("let", "()", n.L), "(ELet [] [" + n.G + "])"}
+		case 1:
+			return node{lisp("let*", "()", n.L), "(ELetStar [] [" + n.G + "])"}
+		case 2:
+			return node{lisp("progn", n.L), "(EProgn [" + n.G + "])"}
+		case 3:
+			return node{lisp("funcall", lisp("lambda", "()", n.L)), "(EFuncall (ELambda [] [" + n.G + "]) [])"}
+		case 4:
+			return node{lisp("let", "("+lisp(p, "5")+")", n.L), fmt.Sprintf("(ELet [(%s, %s)] [%s])", q(p), gInt(5), n.G)}
+		case 5:
+			return node{lisp("funcall", lisp("lambda", "("+p+" "+p+"2)", n.L), "1", "2"),
+				fmt.Sprintf("(EFuncall (ELambda [%s; %s] [%s]) [%s; %s])", q(p), q(p+"2"), n.G, gInt(1), gInt(2))}
+		case 6:
+			return node{lisp("funcall", lisp("funcall", lisp("lambda", "()", lisp("lambda", "()", n.L)))),
+				"(EFuncall (EFuncall (ELambda [] [ELambda [] [" + n.G + "]]) []) [])"}
+		case 7:
+			return node{lisp("dotimes", lisp(p, "1", n.L)), fmt.Sprintf("(EDotimes %s %s (Some %s) [])", q(p), gInt(1), n.G)}
+		default:
+			return node{lisp("do", "("+lisp(p, "0", lisp("1+", p))+")", lisp(lisp(">", p, "0"), n.L)),
+				fmt.Sprintf("(EDo false [(%s, %s, Some (EPrim PInc [EVar %s]))] (EPrim PGt [EVar %s; %s]) [%s] [])", q(p), gInt(0), q(p), q(p), gInt(0), n.G)}
+		}
+	}
+	for i := g.r.Intn(3); i > 0; i-- {
+		lam = one(lam)
+	}
+	return lam
+}
+
+// closures made in the body of a loop capture the loop variable (one binding, assigned on every iteration) and
+// outer variables; they are called inside the loop, after it, and under another binding of the same names
+func (g *gen) loopCapture(t typ, d int) (node, bool) {
+	if g.loops >= maxLoops || d < 3 {
+		return node{}, false
+	}
+	g.h("idiom:closure-in-loop-body")
+	names := g.freshNames(3)
+	acc, f, i := names[0], names[1], names[2]
+	if i == acc || i == f {
+		i = i + "i"
+	}
+	e0 := g.expr(tInt, d-2)
+	mark := g.push(vinfo{name: acc, t: tInt}, vinfo{name: f, t: tFun, arity: 0})
+	// the loop
+	g.loops++
+	m2 := g.push(vinfo{name: i, t: tInt, ro: true})
+	var lamBody node
+	if g.r.Bool() {
+		lamBody = node{lisp("setq", acc, lisp("+", acc, i)), fmt.Sprintf("(ESetq [(%s, EPrim PAdd [EVar %s; EVar %s])])", q(acc), q(acc), q(i))}
+	} else {
+		lamBody = node{lisp("+", acc, i), fmt.Sprintf("(EPrim PAdd [EVar %s; EVar %s])", q(acc), q(i))}
+	}
+	lam := g.emptyScopes(node{lisp("lambda", "()", lamBody.L), "(ELambda [] [" + lamBody.G + "])"})
+	set := node{lisp("setq", f, lam.L), fmt.Sprintf("(ESetq [(%s, %s)])", q(f), lam.G)}
+	callF := func() node { return g.tr(node{lisp("funcall", f), fmt.Sprintf("(EFuncall (EVar %s) [])", q(f))}) }
+	body := []node{set, callF()}
+	body = append(body, g.stmts(1, d-1)...)
+	g.pop(m2)
+	g.loops--
+	var loop node
+	switch g.r.Intn(3) {
+	case 0:
+		loop = node{lisp("dotimes", lisp(i, "3"), joinL(body)), fmt.Sprintf("(EDotimes %s %s None %s)", q(i), gInt(3), listG(body))}
+	case 1:
+		loop = node{lisp("dolist", lisp(i, "'(4 5)"), joinL(body)), fmt.Sprintf("(EDolist %s (EQuote (DList [DInt 4; DInt 5])) None %s)", q(i), listG(body))}
+		// after a dolist the variable is nil: the closure is only called inside the loop and where i is rebound
+	default:
+		loop = node{lisp("do", "("+lisp(i, "0", lisp("+", i, "1"))+")", lisp(lisp("=", i, "2")), joinL(body)),
+			fmt.Sprintf("(EDo false [(%s, %s, Some (EPrim PAdd [EVar %s; %s]))] (EPrim PNumEq [EVar %s; %s]) [] %s)", q(i), gInt(0), q(i), gInt(1), q(i), gInt(2), listG(body))}
+	}
+	isDolist := strings.HasPrefix(loop.L, "(dolist")
+	var after []node
+	if !isDolist {
+		after = append(after, callF())
+	}
+	// under other bindings of the same names
+	m3 := g.push(vinfo{name: i, t: tInt}, vinfo{name: acc, t: tInt})
+	inner := []node{}
+	if !isDolist {
+		inner = append(inner, callF())
+	}
+	inner = append(inner, g.tr(node{acc, "(EVar " + q(acc) + ")"}))
+	g.pop(m3)
+	sh := node{lisp("let", "("+lisp(i, "70")+" "+lisp(acc, "900")+")", joinL(inner)),
+		fmt.Sprintf("(ELet [(%s, %s); (%s, %s)] %s)", q(i), gInt(70), q(acc), gInt(900), listG(inner))}
+	after = append(after, sh, g.tr(node{acc, "(EVar " + q(acc) + ")"}))
+	if isDolist {
+		g.env[mark+1].arity = 99 // its loop variable is nil now: not to be called any more
+	}
+	rest := g.body(t, d-1, 1)
+	g.pop(mark)
+	all := append(append([]node{loop}, after...), rest...)
+	dummy := node{lisp("lambda", "()", "0"), "(ELambda [] [" + gInt(0) + "])"}
+	return node{lisp("let", "("+lisp(acc, e0.L)+" "+lisp(f, dummy.L)+")", joinL(all)),
+		fmt.Sprintf("(ELet [(%s, %s); (%s, %s)] %s)", q(acc), e0.G, q(f), dummy.G, listG(all))}, true
 }
